@@ -32,7 +32,8 @@ def configs(tier):
             else:
                 add(kind=kind, n=3, cfg=dict(CFG), hidden=True, d=3 if deep else 2, persistent=P2, assertions=a)
                 if main:
-                    add(kind=kind, n=4, cfg=dict(CFG), hidden=deep, d=2 if deep else 1, persistent=P2, assertions=a)
+                    # N=4: hidden-state keys (3 257 states) with single faults, abstract keys (193 forests) with two faults
+                    add(kind=kind, n=4, cfg=dict(CFG), hidden=deep, d=1 if deep else 2, persistent=P2, assertions=a)
                 else:
                     add(kind=kind, n=4, cfg=dict(CFG, extras=False), d=1, persistent=P2, assertions=a)
         # persistent vetoes of the children bracket hooks recurse without bound in the current roll-back
